@@ -350,9 +350,134 @@ class Builder:
             f.write('\n'.join(txt))
         return p
 
+    def sercov_harness(self, cls, excl):
+        """field-coverage obligation for `cls::serializeOp`: every call serializer(<member>) of the (template
+        pattern) body sets a ghost flag; conditions are replaced by nondeterministic choices"""
+        from opm2c.astdb import walk
+        short = cls.split('::')[-1]
+        recs = [n for n in self.db.byid.values() if n.get('kind') == 'CXXRecordDecl' and n.get('name') == short
+                and n.get('completeDefinition') and any(k.get('kind') == 'FieldDecl' for k in n.get('inner', []))]
+        if len(recs) != 1:
+            raise ExtractError('sercov %s: %d class definitions found' % (cls, len(recs)))
+        rec = recs[0]
+        fields = [k['name'] for k in rec['inner'] if k.get('kind') == 'FieldDecl']
+        ser = None
+        for k in rec.get('inner', []):
+            if k.get('name') == 'serializeOp' and k.get('kind') in ('FunctionTemplateDecl', 'CXXMethodDecl'):
+                ser = k
+        if ser is None:
+            raise ExtractError('sercov %s: serializeOp is not defined in the class body' % cls)
+        pat = ser
+        if ser['kind'] == 'FunctionTemplateDecl':
+            pat = [k for k in ser.get('inner', []) if k.get('kind') == 'CXXMethodDecl' and
+                   any(x.get('kind') == 'CompoundStmt' for x in k.get('inner', []))][0]
+        body = [x for x in pat.get('inner', []) if x.get('kind') == 'CompoundStmt'][0]
+        sparam = [x for x in pat.get('inner', []) if x.get('kind') == 'ParmVarDecl']
+        sid = sparam[0]['id'] if sparam else None
+
+        def member_name(y):
+            if y.get('kind') == 'MemberExpr' and y.get('name') in fields:
+                return y['name']
+            if y.get('kind') == 'CXXDependentScopeMemberExpr' and y.get('member') in fields:
+                return y['member']
+            return None
+
+        def ser_calls(n):
+            """(members passed to serializer(...), members otherwise mentioned) in statement n"""
+            passed, seen_in_call = [], set()
+            for y in walk(n):
+                if y.get('kind') == 'CallExpr' and y.get('inner'):
+                    c0 = y['inner'][0]
+                    while c0.get('kind') in ('ImplicitCastExpr', 'ParenExpr') and c0.get('inner'):
+                        c0 = c0['inner'][0]
+                    if c0.get('kind') == 'DeclRefExpr' and c0['referencedDecl'].get('id') == sid:
+                        for a in y['inner'][1:]:
+                            for z in walk(a):
+                                m = member_name(z)
+                                if m:
+                                    passed.append(m)
+                                    seen_in_call.add(id(z))
+            other = [member_name(y) for y in walk(n) if member_name(y) and id(y) not in seen_in_call]
+            return passed, other
+
+        def cond_text(c):
+            """isSerializing() tests are kept (ghost mode flag); every other condition is nondeterministic"""
+            x = c
+            neg = False
+            while x.get('kind') in ('ImplicitCastExpr', 'ParenExpr', 'ExprWithCleanups') and x.get('inner'):
+                x = x['inner'][0]
+            if x.get('kind') == 'UnaryOperator' and x.get('opcode') == '!':
+                neg = True
+                x = x['inner'][0]
+                while x.get('kind') in ('ImplicitCastExpr', 'ParenExpr') and x.get('inner'):
+                    x = x['inner'][0]
+            for y in walk(x):
+                if y.get('kind') in ('MemberExpr', 'CXXDependentScopeMemberExpr') and (y.get('name') or y.get('member')) == 'isSerializing' \
+                        and x.get('kind') in ('CallExpr', 'CXXMemberCallExpr'):
+                    return ('!' if neg else '') + 'ghost_serializing'
+            return 'verif_nondet_bool()'
+
+        def emit(st, ind, lines, mode):
+            k = st.get('kind')
+            pad = '    ' * ind
+            if k == 'CompoundStmt':
+                for y in st.get('inner', []):
+                    if y:
+                        emit(y, ind, lines, mode)
+            elif k == 'IfStmt':
+                inner = [y for y in st.get('inner', []) if y]
+                lines.append(pad + 'if (%s) {' % cond_text(inner[0]))
+                emit(inner[1], ind + 1, lines, mode)
+                lines.append(pad + '}')
+                if len(inner) > 2:
+                    lines.append(pad + 'else {')
+                    emit(inner[2], ind + 1, lines, mode)
+                    lines.append(pad + '}')
+            elif k in ('ForStmt', 'WhileStmt', 'CXXForRangeStmt', 'DoStmt', 'SwitchStmt'):
+                lines.append(pad + 'if (verif_nondet_bool()) {   /* %s: body may not execute */' % k)
+                for y in st.get('inner', []):
+                    if y and y.get('kind') == 'CompoundStmt':
+                        emit(y, ind + 1, lines, mode)
+                lines.append(pad + '}')
+            else:
+                passed, other = ser_calls(st)
+                ln = st.get('range', {}).get('begin', {}).get('_line')
+                for m in passed:
+                    lines.append(pad + 'ghost_%s_ser_%s = 1;   /* serializer(%s), line %s */' % (mode, m, m, ln))
+                for m in other:
+                    lines.append(pad + 'ghost_%s_set_%s = 1;   /* %s mentioned outside a serializer() call, line %s */' % (mode, m, m, ln))
+        out = ['_Bool verif_nondet_bool(void);', 'void harness(void)', '{', '    _Bool ghost_serializing;']
+        for f in fields:
+            out.append('    _Bool ghost_pack_ser_%s = 0, ghost_pack_set_%s = 0, ghost_unpack_ser_%s = 0, ghost_unpack_set_%s = 0;' % (f, f, f, f))
+        for mode, flag in (('pack', 1), ('unpack', 0)):
+            out.append('    /* ---- %s pass: serializer.isSerializing() == %d ---- */' % (mode, flag))
+            out.append('    ghost_serializing = %d;' % flag)
+            lines = []
+            emit(body, 1, lines, mode)
+            out += lines
+        for f in fields:
+            if f in excl:
+                out.append('    /* %s excluded: %s */' % (f, excl[f]))
+                continue
+            out.append('    __CPROVER_assert(ghost_unpack_ser_%s || ghost_unpack_set_%s, "%s::serializeOp/visits %s");' % (f, f, short, f))
+            out.append('    __CPROVER_assert(ghost_pack_ser_%s == ghost_unpack_ser_%s, "%s::serializeOp/packs %s iff it unpacks it");' % (f, f, short, f))
+        out.append('    __CPROVER_assert(0, "%s/reach");' % short)
+        out.append('}')
+        return '\n'.join(out) + '\n', fields
+
     def jobs(self, tier):
         u, b = self.u, self.b
         jobs = []
+        for cls, excl in u.sercov:
+            txt, fields = self.sercov_harness(cls, excl)
+            short = cls.split('::')[-1]
+            p = os.path.join(self.wd, '%s__sercov_%s.c' % (u.name, short))
+            with open(p, 'w') as f:
+                f.write('/* GENERATED from the AST of %s: field coverage of %s::serializeOp */\n' % (u.tu, cls) + txt)
+            j = Job(u.name, 'sercov_%s[BV]' % short, 'coverage', 'BV', p, ['--no-pointer-check'] if False else [], u.timeout)
+            j.target = short
+            j.expect_fail.add('%s/reach' % short)
+            jobs.append(j)
         contracted = [cn for cn, fs in b.fnspecs.items() if fs.contracted]
         for cn, fs in b.fnspecs.items():
             if not fs.ensures or 'noenforce' in fs.opts or 'extern' in fs.opts:
